@@ -82,14 +82,18 @@ def report(r):
 
 def main(argv):
     jobs = 0
+    top = 'seeded'
     for a in list(argv):
         if a.startswith('-j'):
             jobs = int(a[2:] or 4)
             argv.remove(a)
+        elif a.startswith('--dir='):
+            top = a[6:]
+            argv.remove(a)
     sel = argv or ['']
     dirs = []
     for s in sel:
-        dirs += sorted(d for d in glob.glob(os.path.join(V, 'seeded', '*', '*', '')) if s in d)
+        dirs += sorted(d for d in glob.glob(os.path.join(V, top, '*', '*', '')) if s in d)
     if jobs:
         import queue
         import threading
